@@ -326,3 +326,58 @@ Definition rec_route (fmt : Z) (r : prec) (name : string) (ro : route) : option 
 (* the value the field has at point j after the (position, value) pairs of an index expression, applied in order *)
 Definition last_val (sel : list (nat * Z)) (j : nat) (d : Z) : Z :=
   fold_left (fun acc p => if Nat.eqb (fst p) j then snd p else acc) sel d.
+
+(* ======================= round 6: LAYOUTS — the name lookup on a record that has other fields =======================
+   A point layout may carry extra dimensions, and an extra dimension may be NAMED like a sub-field of the format, like an
+   old laspy alias of one, or like a sub-field of the other format family: the packed array has no field of that name,
+   numpy accepts the layout.  PackedPointRecord.__getitem__(name), as the code is:
+     1. an old laspy name is replaced by the name it stands for (OLD_LASPY_NAMES),
+     2. the SUB-FIELD TABLE of the format is asked first: the name addresses bits of a packed byte,
+     3. only then the fields of the array (a scaled extra dimension, then any field); numpy refuses an unknown name.
+   rec[name] = vs goes through the same lookup (self[name][:] = vs); rec.name, las.name, las[name] and their assigning
+   forms forward to it.  The extra bytes of that name are reached through rec.array[name] only. *)
+Definition old_names : list (string * string) :=
+  [("flag_byte", "bit_fields"); ("return_num", "return_number"); ("num_returns", "number_of_returns");
+   ("scan_dir_flag", "scan_direction_flag"); ("edge_flight_line", "edge_of_flight_line"); ("pt_src_id", "point_source_id");
+   ("wave_packet_desc_index", "wavepacket_index"); ("byte_offset_to_waveform_data", "wavepacket_offset");
+   ("waveform_packet_size", "wavepacket_size"); ("return_point_waveform_loc", "return_point_wave_location")]%string.
+
+Fixpoint assoc_s (l : list (string * string)) (k : string) : option string :=
+  match l with [] => None | (k', v) :: t => if String.eqb k' k then Some v else assoc_s t k end.
+Definition canon (name : string) : string := match assoc_s old_names name with Some n => n | None => name end.
+
+Inductive target :=
+| TSub (c : string) (m : Z)        (* bits m of the packed byte c *)
+| TField (n : string)              (* the field n of the array *)
+| TNone.                           (* numpy: no field of name ... (ValueError) *)
+
+Definition resolve (fmt : Z) (fields : list string) (name : string) : target :=
+  let n := canon name in
+  match find_sf fmt n with
+  | Some (c, m) => TSub c m
+  | None => if existsb (String.eqb n) fields then TField n else TNone
+  end.
+
+(* a record of a layout: its packed columns, and the other fields (name -> one stored value per point) *)
+Definition xrec := (prec * list (string * list Z))%type.
+Definition xfields (x : xrec) : list string := map fst (fst x) ++ map fst (snd x).
+
+(* what rec[name] reads *)
+Definition xread (fmt : Z) (x : xrec) (name : string) : option (list Z) :=
+  match resolve fmt (xfields x) name with
+  | TSub c m => Some (map (sf_get m) (col_get (fst x) c))
+  | TField n => match assoc (fst x) n with Some bs => Some bs | None => assoc (snd x) n end
+  | TNone => None
+  end.
+
+(* rec[name] = vs where the lookup finds a sub-field (None: the name is not a sub-field of this format - an assignment
+   to a plain field is numpy's, not this property's): the packed bits are assigned as in the layout without other
+   fields; the other fields follow the growth of the record (np.append of zero points), nothing else *)
+Definition xassign_sub (fmt : Z) (x : xrec) (name : string) (vs : list Z) : option (result xrec) :=
+  match resolve fmt (xfields x) name with
+  | TSub _ _ => Some (match rec_assign_seq fmt (fst x) (canon name) vs with
+                      | Ok r' => Ok (r', rec_grow (snd x) (rec_len r'))
+                      | Err e => Err e
+                      end)
+  | _ => None
+  end.
